@@ -2,6 +2,8 @@ package rules
 
 import (
 	"fmt"
+	"go/token"
+	"go/types"
 
 	"golang.org/x/tools/go/ssa"
 
@@ -128,4 +130,73 @@ func c07WholeLineBatches(c *Ctx) {
 		}
 	}
 	c.Check(n >= 1, "whole-line-batches", "producer in front of rotateFile found", "-", fmt.Sprint(n), "no producer writes to the rotating file any more")
+}
+
+// c07DescriptorKept: the descriptor events are written to is closed only once its replacement is open. A Close of the
+// active descriptor anywhere else (before the rename, before os.OpenFile has succeeded) leaves a closed file in place
+// when that later step fails; once the destination is back the path exists again, no reopen happens, and every
+// accepted event is lost with "file already closed".
+func c07DescriptorKept(c *Ctx) {
+	p := c.P
+	rt := p.Type(fileRel, "rotateFile")
+	if !c.Anchor(rt != nil, "descriptor-kept-until-replaced", "type pushers/file.rotateFile") {
+		return
+	}
+	isOSFile := func(t types.Type) bool {
+		pt, ok := t.(*types.Pointer)
+		if !ok {
+			return false
+		}
+		n := NamedOf(pt.Elem())
+		return n != nil && n.Obj().Pkg() != nil && n.Obj().Pkg().Path() == "os" && n.Obj().Name() == "File"
+	}
+	desc := fieldByType(rt, isOSFile)
+	if !c.Anchor(desc != "", "descriptor-kept-until-replaced", "rotateFile's *os.File field") {
+		return
+	}
+	openOK := func(at ssa.Instruction) bool {
+		for _, dc := range DomConds(at) {
+			b, isB := dc.V.(*ssa.BinOp)
+			if !isB || !IsNilConst(b.Y) {
+				continue
+			}
+			if !((b.Op == token.EQL && dc.Pol) || (b.Op == token.NEQ && !dc.Pol)) {
+				continue
+			}
+			ex, isE := b.X.(*ssa.Extract)
+			if !isE || ex.Index != 1 {
+				continue
+			}
+			if oc, isC := ex.Tuple.(*ssa.Call); isC {
+				if f := oc.Call.StaticCallee(); f != nil && (FuncIs(f, "os", "OpenFile") || FuncIs(f, "os", "Create")) {
+					return true
+				}
+			}
+		}
+		return false
+	}
+	n := 0
+	for _, fn := range p.FuncsIn(fileRel) {
+		for _, call := range Calls(fn) {
+			f := call.Common().StaticCallee()
+			if f == nil || !MethodIs(f, "os", "File", "Close") || len(call.Common().Args) == 0 {
+				continue
+			}
+			ld, ok := call.Common().Args[0].(*ssa.UnOp)
+			if !ok {
+				continue
+			}
+			fa, ok := ld.X.(*ssa.FieldAddr)
+			if !ok || fieldNameOf(fa) != desc || NamedOf(fa.X.Type()) == nil || NamedOf(fa.X.Type()).Obj() != rt.Obj() {
+				continue
+			}
+			key := shortFn(fn) + " closes " + desc
+			if fn.Signature.Recv() != nil && fn.Name() == "Close" {
+				c.Ok("descriptor-kept-until-replaced", key, p.InstrPos(call), "the channel's own Close (final)")
+				continue
+			}
+			n++
+			c.Check(openOK(call), "descriptor-kept-until-replaced", key, p.InstrPos(call), "closed only after os.OpenFile returned the replacement", "the active descriptor is closed before its replacement is open: when the rename/open that follows fails (destination temporarily unavailable) the closed file stays in place, and after the path is back every write and sync fails with \"file already closed\" – accepted events are lost until restart")
+		}
+	}
 }
